@@ -48,7 +48,7 @@ def check_frame(out, rng, fr, sess, pending):
   if fr.get('reuse_object'):
     SHARED['m'] = m      # one analysis object fitted again and again: every fit must start from scratch
   try:
-    m.fit(en.to_df(fr))
+    m.fit(en.to_df(fr), **en.fit_kwargs(fr))
     # which cost scenario this frame is, determined from the frame itself (not asked from the object under test)
     t_cost = en.totals(fr, col=5)
     strict = sum(t_cost[0][0]) + sum(t_cost[0][1]) + sum(t_cost[1][0])
@@ -127,6 +127,9 @@ def run(out, tier, model_ok=True):
       SHARED.clear()      # a new re-used object now and then, so that both cost scenarios come first on some object
     fr.update(level=rng.choice([0.9, 0.8, 0.95, 0.5, 0.3]), tails=rng.choice([1, 2]),
               metric=rng.choice(['tbr_response', 'tbr_cost', 'tbr_cost']), reuse_object=(i % 2 == 0))
+    if i % 5 == 2:
+      fr['names'] = dict(en.CUSTOM_NAMES)      # caller-chosen column names
+      fr['reuse_object'] = False
     check_frame(out, rng, fr, sess, pending)
   if sess is not None and pending:
     res = sess.run()
